@@ -500,6 +500,10 @@ class Closing(State):
     def run(self) -> None:
         self.set_closing_state(set_name=True)
 
+        if self.is_set_release_signal_from_peer():
+            self.set_closed_state()
+            return
+
         if self.has_recv_queue_message():
             self.msg = self.get_message()
 
